@@ -673,7 +673,7 @@ static void run_modes(const Scenario &sc, Reporter &rep) {
 
 int main() {
     return replay_main(std::cin, [](const Scenario &sc, Reporter &rep) {
-        alarm(60);   // watchdog only: a scenario takes milliseconds; a hang (e.g. a blocking access that is never
+        alarm(20);   // watchdog only: a scenario takes milliseconds; a hang (e.g. a blocking access that is never
                      // released) kills the replayer inside the scenario, which the driver reports
         if (sc.hdr.at("witharg").as_bool()) run_modes<G1>(sc, rep);
         else run_modes<G0>(sc, rep);
